@@ -109,8 +109,10 @@ PROPS = {
         'props': 'Props/C04.v',
         'suites': [{'name': 'route', 'oracles': {'route': 'o_route'}, 'trivial_tags': ['live-0'], 'vm_sample': 40},
                    {'name': 'cluster', 'oracles': {'cluster': 'o_cluster'}, 'trivial_tags': ['nodes-1', 'nodes-2'], 'vm_sample': 10, 'sigs': ['pool-set-or-pool-role-differs-from-latest-valid-description']},
-                   {'name': 'loop', 'oracles': {'loop': 'o_loop'}, 'trivial_tags': ['plain'], 'vm_sample': 6, 'sigs': ['request-delivered-to-a-node-that-does-not-own-the-slot', 'event-loop-stopped']}],
-        'rule': 'loop: the event-loop histories of C01 (every request a fake node receives is checked against the slot table); listenServer.route for every command type of the table on fixed 0/2/3-replica sets (4 random seeds each, replica reads on/off) and on random sets of 0-4 replicas '
+                   {'name': 'loop', 'oracles': {'loop': 'o_loop'}, 'trivial_tags': ['plain'], 'vm_sample': 6, 'sigs': ['request-delivered-to-a-node-that-does-not-own-the-slot', 'event-loop-stopped']},
+                   {'name': 'replicas', 'oracles': {'loopspec': 'o_loop'}, 'oracle_only_entries': ['loopspec'], 'trivial_tags': [], 'vm_sample': 0,
+                    'sigs': ['request-delivered-to-a-node-that-does-not-own-the-slot', 'replica-connection-used-without-readonly', 'reply-does-not-belong-to-the-request-at-its-position', 'request-never-answered-and-connection-left-open', 'more-replies-than-requests', 'backend-received-bytes-that-are-not-requests', 'event-loop-stopped']}],
+        'rule': 'replicas: 120 (quick) event-loop histories with replica reads ENABLED (three masters with 0-2 replicas each, optional password), judged by the specification oracle alone: requests reach the master or - reads only - a replica of the owning set, READONLY precedes the first request on a replica connection; loop: the event-loop histories of C01 (every request a fake node receives is checked against the slot table); listenServer.route for every command type of the table on fixed 0/2/3-replica sets (4 random seeds each, replica reads on/off) and on random sets of 0-4 replicas '
                 'with random pool presence / ban flag / ban-lift time on both sides of now; rand.Intn made reproducible by rand.Seed and its value for every possible argument passed to '
                 'the model as oracle; OnSOpened for passwords of several lengths x master/replica. distinct = distinct (set, type, seed); non-trivial = at least one live replica',
         'explanation': 'Theorems: the node chosen is the master or a live replica of the same set, for every set, type, setting and random value within Intn\'s contract; writes, cursor scans, scripts and '
